@@ -54,15 +54,21 @@ def decodeStep (v : Val) : Option StepReq := do
       some { op := ← o.toStr?, args := ← a.toNats?, flavour := ← f.toNat?, newPd := ← n.toNats?, raised := ← r.toBool? }
   | _ => none
 
-/-- The operation instance the model executes for a request under contract `c`. -/
-def opFor (h : Heap) (c : Contract) (s : StepReq) (idx : Nat) : Op :=
+/-- The operation instance the model executes for a request under contract `c`: a `RawOp` that
+    respects `c` (it receives the operand references; the values written are arbitrary tokens). -/
+def opFor (h : Heap) (c : Contract) (s : StepReq) (idx : Nat) : RawOp :=
   let tag : Int := 1000 + 10 * (idx : Int)
+  let progFor (a : Nat) (v : Nat) (t : Int) : List Act := (inPlaceProg v (nbases h a) t).map Act.prim
   match c with
-  | .query => .query s.args (if s.raised then none else some [tag])
-  | .fresh => .fresh s.args (s.newPd.map (objSpec (1000 + 10 * idx)))
-  | .inPlace => .inPlace (s.args.headD 0) s.args.tail (inPlaceProg s.flavour (nbases h (s.args.headD 0)) tag) true
-  | .procedure => .inPlace (s.args.headD 0) s.args.tail (inPlaceProg s.flavour (nbases h (s.args.headD 0)) tag) false
-  | .procedureAll => .inPlaceAll (s.args.map (fun a => (a, inPlaceProg (s.flavour + a) (nbases h a) (tag + 100 * a))))
+  | .query => { args := s.args, writes := [], news := [], ret := if s.raised then .none else .newBuffer [tag] }
+  | .fresh => { args := s.args, writes := [], news := s.newPd.map (fun pd => (objSpec (1000 + 10 * idx) pd, [])),
+                ret := .newObjects }
+  | .inPlace => { args := if s.args.isEmpty then [0] else s.args,
+                  writes := [(s.args.headD 0, progFor (s.args.headD 0) s.flavour tag)], news := [], ret := .receiver }
+  | .procedure => { args := s.args, writes := (s.args.take 1).map (fun a => (a, progFor a s.flavour tag)), news := [],
+                    ret := .none }
+  | .procedureAll => { args := s.args, writes := s.args.map (fun a => (a, progFor a (s.flavour + a) (tag + 100 * a))),
+                       news := [], ret := .none }
 
 def ofPairs (es : List (Nat × Nat)) : Val := .list (es.map (fun e => Val.ofNats [e.1, e.2]))
 
@@ -72,7 +78,8 @@ def runSteps : Heap → Nat → List StepReq → List Val → Except String (Hea
     match (Splipy.Generated.C11.lookup s.op).bind Splipy.Generated.C11.entry with
     | some (.contract c) =>
       let op := opFor h c s idx
-      let (h', res) := step h op
+      if !op.respects c then .error "ModelOpDoesNotRespectContract" else
+      let (h', res) := exec h op
       let retsRecv := match c, res with
         | .inPlace, .handles [r] => r == s.args.headD 0
         | _, _ => false
@@ -92,7 +99,7 @@ def handle : Handler
       let some init := initv.toNats? | return bad
       let some stepVals := stepsv.toList? | return bad
       let some steps := stepVals.mapM decodeStep | return bad
-      let h0 := allocObjs Heap.empty ((List.range init.length).zipWith (fun i pd => objSpec i pd) init)
+      let h0 := buildObjs Heap.empty ((List.range init.length).zipWith (fun i pd => (objSpec i pd, ([] : List Act))) init)
       match runSteps h0 0 steps [] with
       | .error e => return Val.err e
       | .ok (h, outs) => return .list [.list outs, ofPairs (sharingEdges h)]
